@@ -132,6 +132,11 @@ def run(res, tier, seed):
                                                        dict(file_sets=len(eps), start=str(tg.dt_of(sq)), thresh_days=float(th), lines=[x[:40] for x in again])))
                             except IndexError:
                                 pass
+                        except Exception as e:  # noqa
+                            res.violations.append(("get_tle_lines raised %r instead of selecting an element set or reporting NoTLEData" % (e,),
+                                                   dict(file_sets=len(eps), start=str(tg.dt_of(sq)), thresh_days=float(th),
+                                                        nearest_epoch_days_away=min(abs(sq - x) for x in exact) / 86400000.0)))
+                            continue
                         dist = [abs(sq - x) for x in exact]
                         dmin = min(dist)
                         ctx = dict(sets=len(eps), style=style, start=str(tg.dt_of(sq)), thresh_days=float(th), selected=sel,
